@@ -1106,6 +1106,9 @@ class NumpyTensor(Tensor):
         else:
             if is_numeric_dtype(self.dtype):
                 weighting = self.space.weighting
+                if isinstance(weighting, NumpyTensorSpaceArrayWeighting):
+                    # Per-entry weights: select the weights of the entries
+                    weighting = weighting.array[indices]
             else:
                 weighting = None
             space = type(self.space)(
